@@ -119,6 +119,13 @@ Theorem c05_entry_jwe : forall w a r enc algs zip e rs z, w_jwe_def w = PNone ->
    jwe_zip_ok w (spec_jwe_choice a r) zip z).
 Proof. exact jwe_entry_iff. Qed.
 
+Theorem c05_entry_jwe_else : forall w a r enc algs zip, w_jwe_def w = PNone ->
+  is_str enc = true -> Forall (fun n => is_str n = true) algs ->
+  match zip with Some z => is_str z = true | None => True end ->
+  (exists t, jwe_entry w (pv_of_allowed a) (opt_pv r) enc algs zip = Ok t) \/
+  jwe_entry w (pv_of_allowed a) (opt_pv r) enc algs zip = Err (EJose UnsupportedAlgorithmError).
+Proof. exact jwe_entry_class. Qed.
+
 (* ---- before any cryptographic result: whatever the cryptographic stages
         compute, an operation returns a result only if all its gates passed ---- *)
 Theorem c05_before_crypto :
@@ -155,6 +162,17 @@ Proof. exact history_full. Qed.
 Theorem c05_history_registrations_only : forall h c w,
   step (run h w) c = step (run (filter is_register h) w) c.
 Proof. exact history_registers. Qed.
+
+(* ---- both algorithms= and registry= given (the property text does not order them):
+        JWS entry points use the registry and ignore the list, JWE entry points use
+        the non-empty list and ignore the registry; witnesses on w0 ---- *)
+Theorem c05_both_given :
+  (forall w k a r, jws_entry_select w k a (Some r) = r) /\
+  (forall w a r, py_truth a = true -> jwe_select w a r = a) /\
+  (exists rows, jws_entry w0 KPlain (PList [pname "HS256"]) (Some (PList [pname "HS384"])) [pname "HS384"] = Ok rows) /\
+  runit (jwe_entry w0 (PList [pname "A192KW"; pname "A128GCM"]) (Some (PList [pname "A128KW"; pname "A128GCM"]))
+           (pname "A128GCM") [pname "A128KW"] None) = Err (EJose UnsupportedAlgorithmError).
+Proof. exact both_given. Qed.
 
 (* ---- the empty list ---- *)
 Theorem c05_empty_list_is_default : forall w name no_registry, no_registry = @None pv ->
@@ -241,10 +259,12 @@ Print Assumptions c05_gate_supported_any.
 Print Assumptions c05_entry_jws.
 Print Assumptions c05_entry_jws_else.
 Print Assumptions c05_entry_jwe.
+Print Assumptions c05_entry_jwe_else.
 Print Assumptions c05_before_crypto.
 Print Assumptions c05_none.
 Print Assumptions c05_history.
 Print Assumptions c05_history_registrations_only.
+Print Assumptions c05_both_given.
 Print Assumptions c05_empty_list_is_default.
 Print Assumptions c05_readings_coincide.
 Print Assumptions c05_tables_consistent.
